@@ -60,6 +60,8 @@ def gen(rng, tier, i):
     return plan
 
 
+gen = _gen.with_lines(gen, ['_websocket_handler', '_upgrade_websocket', 'handle_get_request', 'send', 'poll', 'writer', 'close'])
+
 def run(plan, sched_values=None, sched_seed=0):
     h = run_server_scenario(plan, sched_values, sched_seed)
     f = oracles.Facts(h)
